@@ -168,6 +168,10 @@ def grep_forbidden():
     return hits
 
 
+CURRENT_TIER = [None]
+LEANCHECKER = [None]
+
+
 def audit(modules):
     """
     `modules`: list of Lean module names under QSP.Properties (e.g. "C09").
@@ -210,6 +214,14 @@ def audit(modules):
     hits = grep_forbidden()
     if hits:
         raise InfraError("forbidden constructs in Lean sources: %s" % hits[:10])
+    if CURRENT_TIER[0] == "thorough":
+        # thorough tier: the toolchain's independent re-checker replays the compiled declarations of the property modules
+        # (and everything they import) through the kernel
+        mods = ["QSP.Properties." + m for m in modules]
+        r = subprocess.run(["lake", "env", "leanchecker"] + mods, cwd=LEAN, capture_output=True, text=True, timeout=3600)
+        if r.returncode != 0:
+            raise InfraError("leanchecker rejects %s:\n%s" % (mods, (r.stdout + r.stderr)[-2000:]))
+        LEANCHECKER[0] = "lake env leanchecker " + " ".join(mods) + " : exit 0"
     return res
 
 
@@ -422,6 +434,7 @@ def den_close(a, b, tol):
 class Ctx:
     def __init__(self, prop, tier, seed, level, modules):
         self.prop, self.tier, self.seed, self.level = prop, tier, int(seed), level
+        CURRENT_TIER[0] = tier
         self.modules = modules
         self.t0 = time.time()
         self.evals = 0
@@ -506,6 +519,8 @@ class Ctx:
                 "correspondence harness /verif/harness (float->Fraction, line protocol, generators, comparison rules)",
             ]
             cov["theorems"] = sorted(self.axioms)
+            if LEANCHECKER[0]:
+                cov["independent_recheck"] = LEANCHECKER[0]
         if self.level == "translation_validation":
             cov["programs"] = self.evals
             cov["disagreements_checked"] = len(self.violations) + self.dist.get("known_finding_hits", 0)
